@@ -21,8 +21,6 @@ import (
 	"sync/atomic"
 	"time"
 
-	"go.uber.org/zap"
-
 	"github.com/gr33nbl00d/caddy-revocation-validator/core"
 	"github.com/gr33nbl00d/caddy-revocation-validator/crl/crlloader"
 	"github.com/gr33nbl00d/caddy-revocation-validator/crl/crlreader"
@@ -63,9 +61,9 @@ type childOut struct {
 
 type countProc struct{ n atomic.Int64 }
 
-func (p *countProc) StartUpdateCrl(*crlreader.CRLMetaInfo) error                   { return nil }
-func (p *countProc) InsertRevokedCertificate(*crlreader.CRLEntry) error            { p.n.Add(1); return nil }
-func (p *countProc) UpdateExtendedMetaInfo(*crlreader.ExtendedCRLMetaInfo) error   { return nil }
+func (p *countProc) StartUpdateCrl(*crlreader.CRLMetaInfo) error                  { return nil }
+func (p *countProc) InsertRevokedCertificate(*crlreader.CRLEntry) error           { p.n.Add(1); return nil }
+func (p *countProc) UpdateExtendedMetaInfo(*crlreader.ExtendedCRLMetaInfo) error  { return nil }
 func (p *countProc) UpdateSignatureCertificate(*core.CertificateChainEntry) error { return nil }
 
 const repoMod = "github.com/gr33nbl00d/caddy-revocation-validator/"
@@ -206,7 +204,7 @@ func childMain(cfgPath string) {
 				time.Sleep(time.Millisecond)
 			}
 		}()
-		l := &crlloader.FileLoader{FileName: cfg.File, Logger: zap.NewNop()}
+		l := &crlloader.FileLoader{FileName: cfg.File, Logger: l2.DebugLogger()}
 		if err := l.LoadCRL(filepath.Join(cfg.Dir, "copy.tmp")); err != nil {
 			out.Err = err.Error()
 		}
@@ -228,7 +226,7 @@ func childMain(cfgPath string) {
 				time.Sleep(time.Millisecond)
 			}
 		}()
-		l := &crlloader.URLLoader{UrlString: "http://" + ln.Addr().String() + "/big.crl", Logger: zap.NewNop()}
+		l := &crlloader.URLLoader{UrlString: "http://" + ln.Addr().String() + "/big.crl", Logger: l2.DebugLogger()}
 		if err := l.LoadCRL(filepath.Join(cfg.Dir, "download.tmp")); err != nil {
 			out.Err = err.Error()
 		}
@@ -256,7 +254,7 @@ func childMain(cfgPath string) {
 		l2.InstallHooks()
 		wd := filepath.Join(cfg.Dir, "wd")
 		_ = os.MkdirAll(wd, 0755)
-		chk, err := l2.Start(l2.Opts{WorkDir: wd, Storage: "disk", SigMode: "verify", Fetch: "actively", Strict: true})
+		chk, err := l2.Start(l2.Opts{WorkDir: wd, Storage: "disk", SigMode: "verify", Fetch: "actively", Strict: true, Logger: l2.DebugLogger()})
 		if err != nil {
 			out.Err = err.Error()
 			break
@@ -329,7 +327,7 @@ func main() {
 	}
 	run := report.New("C17", "exploration")
 	run.Rule("cases = component{streaming reader with a counting consumer, URL loader, file loader, full disk path download->parse->store->lookup} x N x encoding{DER, PEM}; each case runs in its own child process with runtime.MemProfileRate=16 KiB while a sampler forces two GCs and reads the heap profile every ~20 ms; in-use bytes are attributed by allocation site: goleveldb/snappy frames = dependency budget, any other record with a repository frame = the repository's own retention; oracle: repository-attributed in-use <= 1 MiB in every sample at every N, goleveldb-attributed <= 96 MiB, median HeapAlloc of the second half of the run <= 64 MiB, listed serials of the big CRL are rejected and an unlisted one accepted on the disk path; non-trivial = case with >= 10 samples taken while the component was making progress; distinct = case descriptor")
-	run.Assume("heap profile reflects the last completed GC (two forced GCs precede every read)", "goleveldb's own bounded caches and write buffers are a trusted dependency budget")
+	run.Assume("all components run with a debug-level logger that discards its output, so that code which only runs when debug logging is enabled is included", "heap profile reflects the last completed GC (two forced GCs precede every read)", "goleveldb's own bounded caches and write buffers are a trusted dependency budget")
 	scratch, _ := report.Scratch("C17")
 	bin := os.Getenv("VERIF_ENGINE_BIN")
 	if bin == "" {
